@@ -207,7 +207,8 @@ def generate(rng, tier: str, index: int) -> dict:
         # which keeps state between the statements of one route - and must drop it when the route is refused)
         if c[0] in APPENDABLE and all(x in APPENDABLE for x in c[2::2]) and rng.random() < 0.25:
             c.append('nested')
-    return {'micro_seed': rng.randint(1, 1 << 48), 'knobs': knobs(rng), 'kinds': kinds_for(rng), 'cells': [list(c) for c in cells], 'nconf': rng.randint(0, 6), 'mode': rng.choice(['both', 'both', 'conf'])}
+    return {'micro_seed': rng.randint(1, 1 << 48), 'knobs': knobs(rng), 'kinds': kinds_for(rng), 'cells': [list(c) for c in cells], 'nconf': rng.randint(0, 6), 'mode': rng.choice(['both', 'both', 'conf']),
+            'family_form': rng.fork('family-form').chance(0.4)}  # fmt: skip
 
 
 def grid(tier: str):
@@ -219,6 +220,7 @@ def grid(tier: str):
         rng = Rng(9000 + start)
         plans.append({'micro_seed': 9000 + start, 'knobs': {'tick': 0.002, 'drift': 0.0, 'wall_step': 0.0}, 'kinds': kinds_for(rng), 'cells': [list(c) for c in CELLS[start : start + chunk]], 'nconf': 8, 'mode': 'both'})
         plans.append(dict(jclone(plans[-1]), mode='conf', nconf=chunk))
+        plans.append(dict(jclone(plans[-2]), nconf=0, family_form=True))
     return plans
 
 
@@ -292,6 +294,18 @@ def definition(cell, n: int):
     return text, valid, r
 
 
+FAMILY_FORM = {'mask4', 'mask6', 'nexthop', 'aspath', 'community', 'large', 'ext', 'pathid', 'aggregator', 'originator', 'cluster', 'aigp', 'origin', 'med', 'local-preference'}
+
+
+def api_spelling(plan: dict, i: int, text: str) -> str:
+    """half of the flat `route ...` definitions of a plan with `family_form` reach the API in the per-family spelling
+    (`announce ipv4 unicast <prefix> ...`): another schema over the same value parsers, the same verdict is expected"""
+    if not plan.get('family_form') or i % 2 or not text.startswith('route ') or '{' in text or plan['cells'][i][0] not in FAMILY_FORM:
+        return text
+    rest = text[len('route ') :]
+    return ('ipv6 unicast ' if ':' in rest.split(' ', 1)[0] else 'ipv4 unicast ') + rest
+
+
 def execute(plan: dict) -> dict:
     w = make_world(plan)
     kinds = plan['kinds']
@@ -359,7 +373,7 @@ def execute(plan: dict) -> dict:
                 w.after(0.5, driver)
                 return
             st['l0'] = len(h.lines)
-            h.emit(('peer * announce ' + defs[st['i']][0] + '\n').encode())
+            h.emit(('peer * announce ' + api_spelling(plan, st['i'], defs[st['i']][0]) + '\n').encode())
             st['i'] += 1
             st['t'] = now
             w.after(0.15, driver)
